@@ -11,6 +11,11 @@ func evalProgram(p *ast.Program, env *object.Env) object.PanObject {
 
 func evalStmts(stmts []ast.Stmt, env *object.Env) object.PanObject {
 	ret, deferObjs := _evalStmts(stmts, env)
+	// NOTE: deferObj must not escape from stmts as their value
+	// (otherwise the caller registers and evaluates it again)
+	if _, ok := ret.(*object.DeferObj); ok {
+		ret = object.BuiltInNil
+	}
 	err := evalDefer(deferObjs, env)
 	if err != nil {
 		return err
